@@ -52,7 +52,7 @@ def cases(tier):
     for first in range(-1, len(EVENTS)):
         yield ("hist", 3 if tier == "quick" else 4, first)
     for model in range(len(MODELS)):
-        for layout in range(4):
+        for layout in range(5):
             for via in ("api", "cli"):
                 yield ("fault", model, layout, via)
 
@@ -397,9 +397,14 @@ def _run_fault(case):
     model = MODELS[mi]
     for fname, fm, (ci, ai), classes, level in [("none", model, (0, None), (), "none")] + _faults(model):
         its = G.items_of(fm)
-        lay = _layout(its, layout)
+        lay = _layout(its, 1 if layout == 4 else layout)
         crlf = False
         text, starts = G.render(its, lay, crlf)
+        if layout == 4:
+            # layout 4: a first comment line containing characters that str.splitlines() treats as line boundaries but the MPilot lexer (and
+            # text-mode file reading) does not: form feed, vertical tab, FS/GS/RS, NEL, LINE/PARAGRAPH SEPARATOR.  True lines shift by one.
+            text = "# page\x0cbreak \x0b \x1c\x1d\x1e \x85 \u2028 \u2029 end\n" + text
+            starts = [(o + 1, ln + 1) for o, ln in starts]
         evals += 1
         cmd_first, cmd_last = _cmd_span(its, starts, ci)
         tag = {"fault": fname, "at": [ci, ai], "layout": layout, "text": text, "via": via}
@@ -433,7 +438,7 @@ def _run_fault(case):
             from mpilot.cli import mpilot as cli
 
             path = os.path.join(work, "model_%d.mpt" % evals)
-            with open(path, "w", newline="") as f:
+            with open(path, "w", newline="", encoding="utf-8") as f:
                 f.write(text + "\n")
             try:
                 r = CliRunner(mix_stderr=False).invoke(cli.main, ["eems-csv", path])
